@@ -18,11 +18,11 @@ Open Scope list_scope.
 
 (* ------------------------------------------------------------------------------ universe *)
 
-Inductive ty := TI | TS | TM | TX | TE | TD | TB | TN | TNS | TA | TDI | TRI | TV | TW.
+Inductive ty := TI | TS | TM | TX | TE | TD | TB | TN | TNS | TA | TAS | TDI | TRI | TV | TW.
 
 Definition ty_eqb (a b : ty) : bool :=
   match a, b with
-  | TI, TI | TS, TS | TM, TM | TX, TX | TE, TE | TD, TD | TB, TB | TN, TN | TNS, TNS | TA, TA
+  | TI, TI | TS, TS | TM, TM | TX, TX | TE, TE | TD, TD | TB, TB | TN, TN | TNS, TNS | TA, TA | TAS, TAS
   | TDI, TDI | TRI, TRI | TV, TV | TW, TW => true
   | _, _ => false
   end.
@@ -30,20 +30,20 @@ Definition ty_eqb (a b : ty) : bool :=
 (* Storable::HOT_RELOADED of the type *)
 Definition hot_reloaded (t : ty) : bool :=
   match t with
-  | TS | TNS | TV => false
+  | TS | TNS | TV | TAS => false
   | _ => true
   end.
 
 (* tag used by the loaders in the trace *)
 Definition tag (t : ty) : string :=
   match t with
-  | TI | TA => "I" | TS => "S" | TM => "M" | TX => "X" | TE => "E" | TD => "D" | TB => "B"
+  | TI | TA => "I" | TS | TAS => "S" | TM => "M" | TX => "X" | TE => "E" | TD => "D" | TB => "B"
   | TN => "N" | TNS => "NS" | TDI => "DI" | TRI => "RI" | TV => "V" | TW => "W"
   end.
 
 Definition exts (t : ty) : list string :=
   match t with
-  | TI | TS | TA => ["x"]
+  | TI | TS | TA | TAS => ["x"]
   | TM => ["p"; "q"; "r"]
   | TX => []
   | TE => [""]
@@ -69,6 +69,7 @@ Inductive line :=
 | LReadDir (id : string)
 | LInsert (id : string) (z : Z)
 | LThread (l : line)
+| LCatch (l : line)
 | LFail
 | LPanic.
 
@@ -540,6 +541,10 @@ Section Eval.
                                 | RErr _ => RErr {| e_chain := []; e_leaf := "fail" |}
                                 | x => x
                                 end)
+    | LCatch l' =>
+        (* catch_unwind around a line, inside the load *)
+        let '(s1, tr, r) := run_line s l' in
+        (s1, tr, match r with RPanic => ROk (-9)%Z | x => x end)
     | LFail => (s, [], RErr {| e_chain := []; e_leaf := "fail" |})
     | LPanic => (s, [], RPanic)
     end.
